@@ -44,6 +44,7 @@ type logT struct {
 }
 
 var doneGo = map[*ast.GoStmt]bool{}
+var doneEg = map[*ast.CallExpr]bool{}
 
 var yieldFuncs = map[string]map[string]bool{
 	"interpreter": {"Interpreter.ProcessSubroutine": true, "Interpreter.ProcessFunctionSubroutine": true, "Interpreter.ProcessInit": true, "Interpreter.sendProcessResponse": true, "Interpreter.restart": true, "Interpreter.ProcessRecv": true},
@@ -168,6 +169,10 @@ func main() {
 								&ast.AssignStmt{Lhs: []ast.Expr{wname}, Tok: token.DEFINE, Rhs: []ast.Expr{&ast.CallExpr{
 									Fun: &ast.SelectorExpr{X: ast.NewIdent("simhook"), Sel: ast.NewIdent("Register")}}}},
 								t,
+								// scheduling point for the spawner right after the spawn:
+								// the child may run before the spawner continues
+								&ast.ExprStmt{X: &ast.CallExpr{Fun: &ast.SelectorExpr{X: ast.NewIdent("simhook"), Sel: ast.NewIdent("Yield")},
+									Args: []ast.Expr{&ast.BasicLit{Kind: token.STRING, Value: strconv.Quote("spawned")}}}},
 							}}
 							lg.GoStmts++
 							needHook, changed = true, true
@@ -175,7 +180,16 @@ func main() {
 							if c, ok := t.X.(*ast.CallExpr); ok && len(c.Args) == 1 {
 								if sel, ok := c.Fun.(*ast.SelectorExpr); ok && sel.Sel.Name == "Go" {
 									if id, ok := sel.X.(*ast.Ident); ok && (id.Name == "eg" || id.Name == "g" || id.Name == "group") {
+										if doneEg[c] {
+											continue
+										}
+										doneEg[c] = true
 										c.Args[0] = &ast.CallExpr{Fun: &ast.SelectorExpr{X: ast.NewIdent("simhook"), Sel: ast.NewIdent("WrapErr")}, Args: []ast.Expr{c.Args[0]}}
+										list[i] = &ast.BlockStmt{List: []ast.Stmt{
+											t,
+											&ast.ExprStmt{X: &ast.CallExpr{Fun: &ast.SelectorExpr{X: ast.NewIdent("simhook"), Sel: ast.NewIdent("Yield")},
+												Args: []ast.Expr{&ast.BasicLit{Kind: token.STRING, Value: strconv.Quote("spawned")}}}},
+										}}
 										lg.ErrgroupGo++
 										needHook, changed = true, true
 									}
